@@ -226,6 +226,13 @@ func c15Corpus(tier string) (states [][]Op, cmds [][]Op) {
 	for _, a := range extra {
 		cmds = append(cmds, []Op{{Args: a}})
 	}
+	// text that is not UTF-8 (or is multi-byte UTF-8) where the RESP3 type is a TEXT type (verbatim, simple
+	// string, error quoting input): both protocols carry the same bytes
+	for _, name := range []string{"caf\xe9", "\xff\xfe", "\xe5\x90\x8d\xe5\x89\x8d", "\xc3\x28", "a\x80b"} {
+		cmds = append(cmds, []Op{c("CLIENT", "SETNAME", name), c("CLIENT", "LIST")}, []Op{c("CLIENT", "SETNAME", name), c("CLIENT", "INFO")}, []Op{c("CLIENT", "SETNAME", name), c("CLIENT", "GETNAME")},
+			[]Op{c("ECHO", name)}, []Op{c("PING", name)}, []Op{c("SET", "kb", name), c("GET", "kb"), c("TYPE", "kb")}, []Op{c("NOSUCH" + name, name)}, []Op{c("CLIENT", "NOSUCH" + name)},
+			[]Op{c("HSET", "kb", name, name), c("HGETALL", "kb"), c("HRANDFIELD", "kb", "1", "WITHVALUES")}, []Op{c("SADD", "kb", name), c("SMEMBERS", "kb")}, []Op{c("CLIENT", "SETINFO", "LIB-NAME", name), c("CLIENT", "INFO")})
+	}
 	// transactions: every reply shape nested inside the EXEC array
 	tx := [][]string{{"HGETALL", "kh"}, {"HRANDFIELD", "kh", "2", "WITHVALUES"}, {"HINCRBYFLOAT", "kh", "f", "1.5"}, {"SMEMBERS", "kz"}, {"GET", "kn"}, {"LRANGE", "kl", "0", "-1"}, {"INCR", "kl"}, {"LCS", "ks", "kd", "IDX"}, {"CLIENT", "INFO"}, {"TYPE", "ks"}, {"LPOP", "kn", "2"}, {"BLPOP", "kn", "0"}, {"INFO", "server"}}
 	for _, a := range tx {
